@@ -573,4 +573,19 @@ theorem fit_no_raise (S : Schema) (hS : S ∈ familySchemas) (doc : Node) (f t :
   PM.C11.fit_no_raise S (family_det _ hS) (family_fillersOK _ hS) (family_wrapOK _ hS) (family_labelsOK _ hS)
     (family_textStableC _ hS) (family_closable _ hS) doc f t sl hv hattrs htop hft ht hwf hg hst
 
+/-- `PM.C11.fit_no_raise_emits` with its schema guards discharged for the bundled schema family -/
+theorem fit_no_raise_emits (S : Schema) (hS : S ∈ familySchemas) (doc : Node) (f t : Nat) (sl : Slice)
+    (hv : C01.Valid S doc) (hattrs : S.nodeAttrsOK doc = true) (htop : S.isTextblockO (S.tyOf doc) = false)
+    (hft : f ≤ t) (ht : t ≤ fsize doc.kids) (hwf : sl.wf = true) (hg : sl.openPrefixOk S = true)
+    (hst : sl.stableOk S = true) (hloose : sl.looseValid S = true) :
+    replaceStep S doc f t sl = .ok none ∨
+    ∃ st, replaceStep S doc f t sl = .ok (some st) ∧ StepWF st = true ∧
+    (∀ F T G1 G2 sl' ins b, st = .replaceAround F T G1 G2 sl' ins b → aroundShape F T G1 G2 sl' ins = true) ∧
+    (∃ sl', st.sliceOf = some sl' ∧ openValid S sl'.openStart sl'.openEnd sl'.content = true) ∧
+    ((∀ F T G1 G2 sl' ins b, st = .replaceAround F T G1 G2 sl' ins b →
+    noText ((sliceToks' sl').drop ins) = true) → respects (ftoks doc.kids) f t sl st = true) :=
+  PM.C11.fit_no_raise_emits S (family_det _ hS) (family_fillersOK _ hS) (family_wrapOK _ hS)
+    (family_labelsOK _ hS) (family_textStableC _ hS) (family_closable _ hS) (family_leafOk _ hS) doc f t sl hv
+    hattrs htop hft ht hwf hg hst hloose
+
 end PM.Family.C11
